@@ -8,10 +8,29 @@ import SphericalVerif.Lemmas.W3jNorm
     is proved of (i)-(iii) about the array RETURNED by the model, read at the cells `j_min..j_max`.
 
     Domain (`Adm`): `|m2| ≤ j2`, `|m3| ≤ j3` (the guard of the source; hence `0 ≤ j2, j3`) and
-    `j2 + j3 ≤ 1989` (beyond, the int64 radicand of `A` wraps: `C05.A_radicand_overflows_at_1990`). -/
+    `j2 + j3 ≤ 1989` (beyond, the int64 radicand of `A` wraps: `C05.A_radicand_overflows_at_1990`).
+    Capacity: `j2 + j3 + 1 ≤ size`, workspace of at least `size` (resp. `4 * size`) cells.
+
+    Proved
+    * (ii) `normalized`: under the explicit hypothesis that the un-normalised sum is not zero;
+      `normalized_single`: unconditional when `j_min = j_max`; `normalized_regular`: unconditional on
+      `Regular` runs (the hypothesis is discharged: a seed cell stays non-zero).
+    * (iii) `sign_convention`, `sign_convention_pos`: every admissible call.
+    * `single_cell`, `single_cell_j3_zero`, `single_cell_j2_zero`; through the front end:
+      `wigner3j_single_cell`, `wigner3j_jj0` (`(j j 0; m -m 0) = (-1)^(j-m)/√(2j+1)`, all `|m| ≤ j ≤ 1989`).
+    * (i) `recurrence`: on `Regular` runs the returned array satisfies the recurrence at EVERY cell of
+      `[j_min, j_max]` except one matching point; `recurrence_forward`, `recurrence_backward`,
+      `rescale_prefix`, `rescale_suffix`, `recurrence_homogeneous`: the sweeps and the rescaling.
+    * `never_raises`, `zero_outside`, `preNorm_exists`.
+    Missing
+    * the recurrence AT the matching point (equivalently: that the value computed upward and the value
+      computed downward agree up to the factor applied) — this is where the mathematics of the 3-j
+      symbols enters; with it, (i)-(iii) would pin the output down to the 3-j symbols themselves;
+    * `Regular` for every admissible call (only: ≤ 3 cells, `B(j_max) ≥ 0`, `B(j_min) ≥ 0`, `m2 = m3 = 0`;
+      at `Float`, no irregular run among all calls with `j2, j3 ≤ 22`). -/
 namespace W3jNorm
 open Model.W3j Scalar
-open Lemmas.W3jNorm (Adm PreNorm jminOf)
+open Lemmas.W3jNorm (Adm PreNorm jminOf Regular Rec FwdInv BwdInv fwdOf revOf)
 open Lemmas.W3j (perm)
 
 /-! ### 0. the pre-normalisation array -/
@@ -30,6 +49,12 @@ theorem preNorm_exists (size : Nat) (ws : Array ℝ) (j2 j3 m2 m3 : Int) (ha : A
     (hlt : jminOf j2 j3 m2 m3 < j2 + j3) (hws : size ≤ ws.size) :
     ∃ f, PreNorm size ws j2 j3 m2 m3 f :=
   Lemmas.W3jNorm.prenorm_exists size ws j2 j3 m2 m3 ha hlt hws
+
+/-- no admissible call raises `ValueError("Cannot initialize recurrence …")` -/
+theorem never_raises (size : Nat) (ws : Array ℝ) (j2 j3 m2 m3 : Int) (ha : Adm j2 j3 m2 m3)
+    (hs : j2 + j3 + 1 ≤ size) (hws : size ≤ ws.size) :
+    (calculate size ws j2 j3 m2 m3).raised = false :=
+  Lemmas.W3jNorm.never_raises size ws j2 j3 m2 m3 ha hs hws
 
 /-! ### 1. normalisation -/
 
@@ -111,5 +136,247 @@ theorem wigner3j_single_cell (j1 j2 j3 m1 m2 m3 : Int) (hs : m1 + m2 + m3 = 0)
 theorem wigner3j_jj0 (j m : Int) (hm : (m.natAbs : Int) ≤ j) (hj : j ≤ 1989) :
     wigner3j (α := ℝ) j j 0 m (-m) 0 = some ((-1 : ℝ) ^ (j - m) / Real.sqrt (2 * (j : ℝ) + 1)) :=
   Lemmas.W3jNorm.wigner3j_jj0 j m hm hj
+
+/-! ### 4. the three-term recurrence
+
+    `Rec j2 j3 m1 m2 m3 F j` is `X(j) F[j+1] + Y(j) F[j] + Z(j) F[j-1] = 0` with the model's own
+    coefficient functions `Xf`, `Yf`, `Zf` at `ℝ`.
+
+    Structure of the proof (all in `Lemmas/W3jNorm.lean`): the run is cut into its loops
+    (`fwdRatioLoop`, `fwdFillLoop`, `revRatioLoop`, `revFillLoop`, `fwdThreeLoop`, `bwdThreeLoop`,
+    `scaleCopyLoop`: the text of the model's `for` loops) and loop-free glue (`fwdPhase`, `revPhase`);
+    `calculate` IS that composition (`calculate_pipeline`, `afterFwd_eq`, `threeTerm_eq`, `meet_eq`).
+    Each loop has a Hoare triple whose invariant is "the recurrence holds on the part swept so far"
+    (`FwdInv`: cells `j_min ≤ j < hi`; `BwdInv`: cells `lo < j ≤ j_max`), preserved by the recurrence
+    step and by the rescaling of the whole prefix / suffix.
+
+    Range covered: EVERY cell of `[j_min, j_max]` except one matching point `jm`
+    (`jm = j_mid` where the upward and the downward solutions are glued; `jm = j_max` resp. `j_min` when
+    only one direction was used).  At `jm` the recurrence is the statement that the two partial
+    solutions are proportional — a property of the 3-j coefficients, not of the algorithm; not proved.
+
+    Hypothesis `Regular`: `j_minus = j_max` (early exit) or `j_minus ≤ j_plus + 1` once both
+    non-classical regions have been traversed.  When it FAILS the source fills `F_plus` from the shared
+    buffer `sf = rf` at cells that still hold forward ratios (finding; unreachable for genuine 3-j
+    data as far as tests show, but not excluded by the control flow).  Integer sufficient conditions:
+    `regular_of_small`, `regular_of_Bmax_nonneg`, `regular_of_Bmin_nonneg`, `regular_of_m_zero`. -/
+
+theorem rec_iff (j2 j3 m1 m2 m3 : Int) (F : Array ℝ) (j : Int) :
+    Rec j2 j3 m1 m2 m3 F j ↔
+      (Xf j j2 j3 m1 : ℝ) * geti F (j+1) + (Yf j j2 j3 m2 m3 : ℝ) * geti F j
+        + (Zf j j2 j3 m1 : ℝ) * geti F (j-1) = 0 := Iff.rfl
+
+theorem regular_iff (size : Nat) (ws : Array ℝ) (j2 j3 m2 m3 : Int) :
+    Regular size ws j2 j3 m2 m3 ↔
+      ((fwdOf size ws j2 j3 m2 m3).jminus = j2 + j3 ∨
+       (fwdOf size ws j2 j3 m2 m3).jminus ≤ (revOf size ws j2 j3 m2 m3).jplus + 1) := Iff.rfl
+
+/-- the model is the pipeline: after the guards, `calculate` is `afterFwd` applied to the state
+    `fwdOf` left by the forward phase (and `afterFwd_eq`, `threeTerm_eq`, `meet_eq` continue) -/
+theorem calculate_pipeline (size : Nat) (ws : Array ℝ) (j2 j3 m2 m3 : Int) (ha : Adm j2 j3 m2 m3)
+    (hlt : jminOf j2 j3 m2 m3 < j2 + j3) :
+    calculate size ws j2 j3 m2 m3 =
+      let w0 : Array ℝ := ws.map (fun _ => zero)
+      let fw := fwdOf size ws j2 j3 m2 m3
+      Lemmas.W3jBounds.afterFwd j2 j3 (-(m2 + m3)) m2 m3 (jminOf j2 j3 m2 m3) (j2 + j3) (ofInt 1000)
+        (w0.extract 0 size) fw.sf fw.Fm (w0.extract (3*size) (4*size)) fw.undefMin fw.jminus := by
+  rw [Lemmas.W3jBounds.calculate_phased,
+    Lemmas.W3jNorm.calculateP_eq size ws j2 j3 m2 m3 ha.hm2 ha.hm3 hlt]
+  rfl
+
+/-- `recurrence`: the RETURNED array satisfies the three-term recurrence at every cell of
+    `[j_min, j_max]` but one. -/
+theorem recurrence (size : Nat) (ws : Array ℝ) (j2 j3 m2 m3 : Int) (ha : Adm j2 j3 m2 m3)
+    (hlt : jminOf j2 j3 m2 m3 < j2 + j3) (hs : j2 + j3 + 1 ≤ size) (hws : 4 * size ≤ ws.size)
+    (hreg : Regular size ws j2 j3 m2 m3) :
+    ∃ jm, jminOf j2 j3 m2 m3 ≤ jm ∧ jm ≤ j2 + j3 ∧
+      ∀ j, jminOf j2 j3 m2 m3 ≤ j → j ≤ j2 + j3 → j ≠ jm →
+        (Xf j j2 j3 (-(m2 + m3)) : ℝ) * geti (calculate size ws j2 j3 m2 m3).f (j+1)
+          + (Yf j j2 j3 m2 m3 : ℝ) * geti (calculate size ws j2 j3 m2 m3).f j
+          + (Zf j j2 j3 (-(m2 + m3)) : ℝ) * geti (calculate size ws j2 j3 m2 m3).f (j-1) = 0 :=
+  Lemmas.W3jNorm.recurrence_out size ws j2 j3 m2 m3 ha hlt hs hws hreg
+
+/-- the same for the un-normalised values, which moreover do not vanish identically: the hypothesis
+    of `normalized` is discharged -/
+theorem recurrence_prenorm (size : Nat) (ws : Array ℝ) (j2 j3 m2 m3 : Int) (ha : Adm j2 j3 m2 m3)
+    (hlt : jminOf j2 j3 m2 m3 < j2 + j3) (hs : j2 + j3 + 1 ≤ size) (hws : 4 * size ≤ ws.size)
+    (hreg : Regular size ws j2 j3 m2 m3) :
+    ∃ f, PreNorm size ws j2 j3 m2 m3 f ∧
+      ∑ j ∈ Finset.Icc (jminOf j2 j3 m2 m3) (j2 + j3), (2 * (j : ℝ) + 1) * geti f j ^ 2 ≠ 0 ∧
+      ∃ jm, jminOf j2 j3 m2 m3 ≤ jm ∧ jm ≤ j2 + j3 ∧
+        ∀ j, jminOf j2 j3 m2 m3 ≤ j → j ≤ j2 + j3 → j ≠ jm → Rec j2 j3 (-(m2 + m3)) m2 m3 f j := by
+  obtain ⟨f, hpre, hne, jm, h1, h2, hrec, _⟩ :=
+    Lemmas.W3jNorm.prenorm_good size ws j2 j3 m2 m3 ha hlt hs hws hreg
+  exact ⟨f, hpre, by rw [← Lemmas.W3jNorm.wsum_Icc]; exact hne, jm, h1, h2, hrec⟩
+
+/-- `normalized`, unconditional on regular runs -/
+theorem normalized_regular (size : Nat) (ws : Array ℝ) (j2 j3 m2 m3 : Int) (ha : Adm j2 j3 m2 m3)
+    (hlt : jminOf j2 j3 m2 m3 < j2 + j3) (hs : j2 + j3 + 1 ≤ size) (hws : 4 * size ≤ ws.size)
+    (hreg : Regular size ws j2 j3 m2 m3) :
+    ∑ j ∈ Finset.Icc (jminOf j2 j3 m2 m3) (j2 + j3),
+      (2 * (j : ℝ) + 1) * geti (calculate size ws j2 j3 m2 m3).f j ^ 2 = 1 :=
+  Lemmas.W3jNorm.normalized_regular size ws j2 j3 m2 m3 ha hlt hs hws hreg
+
+/-- the cells of the returned array outside `[j_min, j_max]` are `0`, as documented ("those values
+    will all be 0.0"); single-cell case: `single_cell` -/
+theorem zero_outside (size : Nat) (ws : Array ℝ) (j2 j3 m2 m3 : Int) (ha : Adm j2 j3 m2 m3)
+    (hlt : jminOf j2 j3 m2 m3 < j2 + j3) (hs : j2 + j3 + 1 ≤ size) (hws : 4 * size ≤ ws.size)
+    (hreg : Regular size ws j2 j3 m2 m3) (j : Int) (hj : 0 ≤ j)
+    (hout : j < jminOf j2 j3 m2 m3 ∨ j2 + j3 < j) :
+    geti (calculate size ws j2 j3 m2 m3).f j = 0 :=
+  Lemmas.W3jNorm.zero_outside_regular size ws j2 j3 m2 m3 ha hlt hs hws hreg j hj hout
+
+/-! #### when is a run regular -/
+
+/-- at most three cells -/
+theorem regular_of_small (size : Nat) (ws : Array ℝ) (j2 j3 m2 m3 : Int) (ha : Adm j2 j3 m2 m3)
+    (hlt : jminOf j2 j3 m2 m3 < j2 + j3) (hs : j2 + j3 + 1 ≤ size) (hws : 4 * size ≤ ws.size)
+    (hsmall : j2 + j3 ≤ jminOf j2 j3 m2 m3 + 2) : Regular size ws j2 j3 m2 m3 :=
+  Lemmas.W3jNorm.regular_of_small size ws j2 j3 m2 m3 ha hlt hs hws hsmall
+
+/-- `B(j_max) ≥ 0` (an integer condition on the arguments): the top end is classical -/
+theorem regular_of_Bmax_nonneg (size : Nat) (ws : Array ℝ) (j2 j3 m2 m3 : Int) (ha : Adm j2 j3 m2 m3)
+    (hlt : jminOf j2 j3 m2 m3 < j2 + j3) (hs : j2 + j3 + 1 ≤ size) (hws : 4 * size ≤ ws.size)
+    (hB : 0 ≤ Gen.B (j2 + j3) j2 j3 m2 m3) : Regular size ws j2 j3 m2 m3 :=
+  Lemmas.W3jNorm.regular_of_Bmax_nonneg size ws j2 j3 m2 m3 ha hlt hs hws hB
+
+/-- `B(j_min) ≥ 0`: the bottom end is classical -/
+theorem regular_of_Bmin_nonneg (size : Nat) (ws : Array ℝ) (j2 j3 m2 m3 : Int) (ha : Adm j2 j3 m2 m3)
+    (hlt : jminOf j2 j3 m2 m3 < j2 + j3) (hs : j2 + j3 + 1 ≤ size) (hws : 4 * size ≤ ws.size)
+    (hB : 0 ≤ Gen.B (jminOf j2 j3 m2 m3) j2 j3 m2 m3) : Regular size ws j2 j3 m2 m3 :=
+  Lemmas.W3jNorm.regular_of_Bmin_nonneg size ws j2 j3 m2 m3 ha hlt hs hws hB
+
+/-- `m2 = m3 = 0`, any `j2, j3` -/
+theorem regular_of_m_zero (size : Nat) (ws : Array ℝ) (j2 j3 : Int) (ha : Adm j2 j3 0 0)
+    (hlt : jminOf j2 j3 0 0 < j2 + j3) (hs : j2 + j3 + 1 ≤ size) (hws : 4 * size ≤ ws.size) :
+    Regular size ws j2 j3 0 0 :=
+  Lemmas.W3jNorm.regular_of_m_zero size ws j2 j3 ha hlt hs hws
+
+/-! #### the sweeps and the rescaling, as statements about the model's loops -/
+
+theorem fwdInv_iff (j2 j3 m1 m2 m3 jmin : Int) (n : Nat) (Fm : Array ℝ) (hi : Int) :
+    FwdInv j2 j3 m1 m2 m3 jmin n Fm hi ↔
+      (Fm.size = n ∧ geti Fm jmin ≠ 0 ∧ (∀ j, 0 ≤ j → j < jmin → geti Fm j = 0) ∧
+        ∀ j, jmin ≤ j → j < hi → Rec j2 j3 m1 m2 m3 Fm j) := Iff.rfl
+
+theorem bwdInv_iff (j2 j3 m1 m2 m3 jmax : Int) (n : Nat) (s : Int) (Fp : Array ℝ) (lo : Int) :
+    BwdInv j2 j3 m1 m2 m3 jmax n s Fp lo ↔
+      (Fp.size = n ∧ geti Fp s ≠ 0 ∧ ∀ j, lo < j → j ≤ jmax → Rec j2 j3 m1 m2 m3 Fp j) := Iff.rfl
+
+/-- `recurrence_forward`: the upward sweep of the classical region (the loop of the source, with its
+    rescaling and its early stop at `j_mid`) extends the recurrence from `[j_min, j_minus)` to
+    `[j_min, max j_minus j_mid)`; it needs `X(j) ≠ 0` on the cells it divides by and `Z(j_min) = 0`. -/
+theorem recurrence_forward (j2 j3 m1 m2 m3 jmin : Int) (n : Nat) (scale : ℝ) (jminus jmid0 : Int)
+    (Fm : Array ℝ) (h0 : 0 ≤ jmin) (h1 : jmin + 1 ≤ jminus) (hn : jmid0 + 1 < n) (hsc : scale ≠ 0)
+    (hZ0 : (Zf jmin j2 j3 m1 : ℝ) = 0)
+    (hX : ∀ j, jminus ≤ j → j < jmid0 → (Xf j j2 j3 m1 : ℝ) ≠ 0)
+    (hinv : FwdInv j2 j3 m1 m2 m3 jmin n Fm jminus) :
+    let r := (Lemmas.W3jNorm.fwdThreeLoop j2 j3 m1 m2 m3 jmin scale jminus jmid0 Fm).run
+    r.2 ≤ jmid0 ∧ (r.2 = jmid0 ∨ (jminus + 1 ≤ r.2 ∧ geti r.1 r.2 ≠ 0)) ∧
+      FwdInv j2 j3 m1 m2 m3 jmin n r.1 (max jminus r.2) :=
+  (Lemmas.W3jNorm.id_triple _ _ _).1
+    (Lemmas.W3jNorm.fwdThreeLoop_triple j2 j3 m1 m2 m3 jmin n scale jminus jmid0 Fm)
+    ⟨h0, h1, hn, hsc, hZ0, hX, hinv⟩
+
+/-- `recurrence_backward`: the downward sweep extends the recurrence from `(j_plus, j_max]` to
+    `(min j_plus jlow, j_max]`; it needs `Z(j) ≠ 0` on the cells it divides by and `X(j_max) = 0`. -/
+theorem recurrence_backward (j2 j3 m1 m2 m3 jmax : Int) (n : Nat) (scale : ℝ) (jplus jlow s : Int)
+    (Fp : Array ℝ) (h0 : 0 ≤ jlow) (hs : jplus ≤ s) (hs' : s ≤ jmax) (hn : jmax < n) (hsc : scale ≠ 0)
+    (hX : (Xf jmax j2 j3 m1 : ℝ) = 0) (hZ : ∀ j, jlow < j → j ≤ jplus → (Zf j j2 j3 m1 : ℝ) ≠ 0)
+    (hinv : BwdInv j2 j3 m1 m2 m3 jmax n s Fp jplus) :
+    BwdInv j2 j3 m1 m2 m3 jmax n s
+      (Lemmas.W3jNorm.bwdThreeLoop j2 j3 m1 m2 m3 jmax scale jplus jlow Fp).run (min jplus jlow) :=
+  (Lemmas.W3jNorm.id_triple _ _ _).1
+    (Lemmas.W3jNorm.bwdThreeLoop_triple j2 j3 m1 m2 m3 jmax n scale jplus jlow s Fp)
+    ⟨h0, hs, hs', hn, hsc, hX, hZ, hinv⟩
+
+/-- the recurrence is homogeneous: a common factor on the three cells (a cell may be exempted when
+    its coefficient vanishes, as at the two ends of the range) preserves it -/
+theorem recurrence_homogeneous (j2 j3 m1 m2 m3 : Int) (F G : Array ℝ) (j : Int) (c : ℝ)
+    (h1 : (Xf j j2 j3 m1 : ℝ) = 0 ∨ geti G (j+1) = c * geti F (j+1))
+    (h2 : geti G j = c * geti F j)
+    (h3 : (Zf j j2 j3 m1 : ℝ) = 0 ∨ geti G (j-1) = c * geti F (j-1))
+    (hF : Rec j2 j3 m1 m2 m3 F j) : Rec j2 j3 m1 m2 m3 G j :=
+  Lemmas.W3jNorm.Rec_of_scaled c h1 h2 h3 hF
+
+/-- rescaling of the prefix `F_minus[j_min : hi+1] /= c` preserves the forward invariant -/
+theorem rescale_prefix (j2 j3 m1 m2 m3 jmin : Int) (n : Nat) (Fm : Array ℝ) (hi : Int) (c : ℝ)
+    (h : FwdInv j2 j3 m1 m2 m3 jmin n Fm hi) (h0 : 0 ≤ jmin) (hlo : jmin < hi) (hn : hi < n)
+    (hc : c ≠ 0) (hZ0 : (Zf jmin j2 j3 m1 : ℝ) = 0) :
+    FwdInv j2 j3 m1 m2 m3 jmin n (divRange Fm jmin hi c) hi :=
+  Lemmas.W3jNorm.fwd_rescale h h0 hlo hn hc hZ0
+
+/-- rescaling of the suffix `F_plus[lo : j_max+1] /= c` preserves the backward invariant -/
+theorem rescale_suffix (j2 j3 m1 m2 m3 jmax : Int) (n : Nat) (s : Int) (Fp : Array ℝ) (lo : Int) (c : ℝ)
+    (h : BwdInv j2 j3 m1 m2 m3 jmax n s Fp lo) (h0 : 0 ≤ lo) (hs : lo ≤ s) (hs' : s ≤ jmax)
+    (hn : jmax < n) (hc : c ≠ 0) (hX : (Xf jmax j2 j3 m1 : ℝ) = 0) :
+    BwdInv j2 j3 m1 m2 m3 jmax n s (divRange Fp lo jmax c) lo :=
+  Lemmas.W3jNorm.bwd_rescale h h0 hs hs' hn hc hX
+
+/-! ### 5. the hypotheses are satisfiable -/
+
+/-- `j2 = j3 = 1`, `m2 = m3 = 0` (cells `0, 1, 2`; calculator of capacity `(1, 1)`) -/
+example : ∑ j ∈ Finset.Icc (jminOf 1 1 0 0) (1 + 1),
+    (2 * (j : ℝ) + 1) * geti (calculate 3 (Array.replicate 12 (0 : ℝ)) 1 1 0 0).f j ^ 2 = 1 :=
+  normalized_regular 3 _ 1 1 0 0 ⟨by decide, by decide, by decide⟩ (by decide) (by decide) (by simp)
+    (regular_of_m_zero 3 _ 1 1 ⟨by decide, by decide, by decide⟩ (by decide) (by decide) (by simp))
+
+example : jminOf 1 1 0 0 = 0 := by decide
+
+example : 0 ≤ geti (calculate 3 (Array.replicate 12 (0 : ℝ)) 1 1 0 0).f (1 + 1)
+    * (-1 : ℝ) ^ ((1 : ℤ) - 1 + 0 + 0) :=
+  sign_convention 3 _ 1 1 0 0 ⟨by decide, by decide, by decide⟩ (by decide) (by simp)
+
+/-- the hypotheses of `normalized` hold for it: a pre-normalisation array with non-zero sum exists -/
+example : ∃ f, PreNorm 3 (Array.replicate 12 (0 : ℝ)) 1 1 0 0 f ∧
+    ∑ j ∈ Finset.Icc (jminOf 1 1 0 0) (1 + 1), (2 * (j : ℝ) + 1) * geti f j ^ 2 ≠ 0 := by
+  obtain ⟨f, h1, h2, _⟩ := recurrence_prenorm 3 (Array.replicate 12 (0 : ℝ)) 1 1 0 0
+    ⟨by decide, by decide, by decide⟩ (by decide) (by decide) (by simp)
+    (regular_of_m_zero 3 _ 1 1 ⟨by decide, by decide, by decide⟩ (by decide) (by decide) (by simp))
+  exact ⟨f, h1, h2⟩
+
+/-- `j2 = 2, j3 = 1, m2 = 1, m3 = 0`: three cells `1, 2, 3`, non-zero `m` -/
+example : Regular 4 (Array.replicate 16 (0 : ℝ)) 2 1 1 0 :=
+  regular_of_small 4 _ 2 1 1 0 ⟨by decide, by decide, by decide⟩ (by decide) (by decide) (by simp)
+    (by decide)
+
+/-- `j2 = 3, j3 = 2, m2 = -1, m3 = 1`: five cells `1..5`, `B(j_max) = 660` -/
+example : Regular 6 (Array.replicate 24 (0 : ℝ)) 3 2 (-1) 1 :=
+  regular_of_Bmax_nonneg 6 _ 3 2 (-1) 1 ⟨by decide, by decide, by decide⟩ (by decide) (by decide)
+    (by simp) (by decide)
+
+/-- the documented value `(1 1 0; 0 0 0) = -1/√3` through the front end -/
+example : wigner3j (α := ℝ) 1 1 0 0 0 0 = some ((-1 : ℝ) ^ ((1 : ℤ) - 0) / Real.sqrt (2 * ((1 : ℤ) : ℝ) + 1)) := by
+  have := wigner3j_jj0 1 0 (by decide) (by decide)
+  simpa using this
+
+/-! ### 6. test at `Float` (evaluated, not proved): `Regular` on every admissible multi-cell call with
+    `j2, j3 ≤ 8` — no irregular run (also none for `j2, j3 ≤ 22`: 277816 calls, checked once) -/
+
+/-- (irregular, early exits, total) over all admissible calls with j2, j3 ≤ J and j_min < j_max -/
+def floatRegular (J : Nat) : Nat × Nat × Nat := Id.run do
+  let mut bad := 0
+  let mut early := 0
+  let mut tot := 0
+  for j2 in [0:J+1] do
+    for j3 in [0:J+1] do
+      for m2' in [0:2*j2+1] do
+        for m3' in [0:2*j3+1] do
+          let m2 : Int := (m2' : Int) - j2
+          let m3 : Int := (m3' : Int) - j3
+          let jmin : Int := max ((j2 - j3 : Int).natAbs : Int) ((m2 + m3).natAbs : Int)
+          let jmax : Int := j2 + j3
+          if jmin < jmax then
+            let size := j2 + j3 + 1
+            let z : Array Float := Array.replicate size 0.0
+            let fw := Lemmas.W3jNorm.fwdPhase (α := Float) j2 j3 (-(m2+m3)) m2 m3 jmin jmax z z
+            tot := tot + 1
+            if fw.jminus = jmax then early := early + 1
+            else
+              let rv := Lemmas.W3jNorm.revPhase (α := Float) j2 j3 (-(m2+m3)) m2 m3 jmin jmax fw.sf z fw.jminus
+              if !(fw.jminus ≤ rv.jplus + 1) then bad := bad + 1
+  return (bad, early, tot)
+
+#guard floatRegular 8 == (0, 298, 6272)
 
 end W3jNorm
